@@ -35,7 +35,8 @@ ASSUMPTIONS = [
 @st.composite
 def strategy_(draw, tier):
     spec = draw(hier.wirings(features=('dotdot', 'split', 'leaf', 'glob',
-                                       'alias', 'subtopo_initial')))
+                                       'alias', 'subtopo_initial',
+                                       'omit_port')))
     tree = spec['tree']
     counter = [1000]
 
